@@ -2,6 +2,7 @@ package sim
 
 import (
 	"bytes"
+	"context"
 	"io"
 	"net/http"
 	"net/http/httptest"
@@ -41,12 +42,17 @@ type Resp struct {
 
 // Do performs one in-process HTTP request against the real router.
 func (e *Env) Do(method, path string, body []byte, headers map[string]string) *Resp {
+	return e.DoCtx(context.Background(), method, path, body, headers)
+}
+
+// DoCtx is Do with a base context (carrying the logical client id in controlled mode).
+func (e *Env) DoCtx(base context.Context, method, path string, body []byte, headers map[string]string) *Resp {
 	var rd io.Reader
 	if body != nil {
 		rd = bytes.NewReader(body)
 	}
 	req := httptest.NewRequest(method, path, rd)
-	req = req.WithContext(Quiet(req.Context()))
+	req = req.WithContext(Quiet(base))
 	if body != nil && headers["Content-Type"] == "" {
 		req.Header.Set("Content-Type", "application/json")
 	}
